@@ -112,9 +112,32 @@ NEAR = ['int', 'unsigned', 'long', 'unsigned long', 'long long', 'char', 'signed
         'unsigned short [3]', 'unsigned [3]', 'int [3]', 'int [2]', 'int []', 'volatile int', 'const unsigned', 'void']
 
 
+def spelling_table():
+    """every multiset of type-specifier keywords C11 6.7.2p2 allows, in every order -> canonical type"""
+    sets = {'char': ['char'], 'signed char': ['signed', 'char'], 'unsigned char': ['unsigned', 'char'], 'short': ['short'], 'short ': ['signed', 'short'], 'short  ': ['short', 'int'], 'short   ': ['signed', 'short', 'int'],
+            'unsigned short': ['unsigned', 'short'], 'unsigned short ': ['unsigned', 'short', 'int'], 'int': ['int'], 'int ': ['signed'], 'int  ': ['signed', 'int'], 'unsigned': ['unsigned'], 'unsigned ': ['unsigned', 'int'],
+            'long': ['long'], 'long ': ['signed', 'long'], 'long  ': ['long', 'int'], 'long   ': ['signed', 'long', 'int'], 'unsigned long': ['unsigned', 'long'], 'unsigned long ': ['unsigned', 'long', 'int'],
+            'long long': ['long', 'long'], 'long long ': ['signed', 'long', 'long'], 'long long  ': ['long', 'long', 'int'], 'long long   ': ['signed', 'long', 'long', 'int'],
+            'unsigned long long': ['unsigned', 'long', 'long'], 'unsigned long long ': ['unsigned', 'long', 'long', 'int'], 'double': ['double'], 'float': ['float'], '_Bool': ['_Bool']}
+    out = []
+    for canon, kws in sets.items():
+        for perm in sorted(set(itertools.permutations(kws))):
+            out.append((' '.join(perm), canon.strip()))
+    return out
+
+
+SPELL_OTHERS = ['char', 'signed char', 'unsigned char', 'short', 'unsigned short', 'int', 'unsigned', 'long', 'unsigned long', 'long long', 'unsigned long long', 'float', 'double', '_Bool']
+
+
 def misc_decls():
     out = []
     k = 0
+    for sp, canon in spelling_table():
+        # the spelled type is compatible with its canonical type and with no other basic type (as object type and behind a pointer)
+        for other in SPELL_OTHERS:
+            out.append(dataref.Decl('m%d' % k, 'int m%d = __builtin_types_compatible_p(%s *, %s *) + 2 * __builtin_types_compatible_p(%s, %s);' % (k, sp, other, sp, other), ['m%d' % k],
+                                    meta=('typeof-compat', sp, other, sp)))
+            k += 1
     for e, t in MISC:
         for n in ([t] if t else []) + NEAR:
             out.append(dataref.Decl('m%d' % k, 'int m%d = __builtin_types_compatible_p(__typeof__(%s), %s);' % (k, e, n), ['m%d' % k], meta=('typeof-compat', e, n, e)))
